@@ -751,6 +751,18 @@ class Interp:
             return Or(*[eq(v, item) for v in c.items])
         if isinstance(container, str) and isinstance(item, str):
             return item in container
+        if isinstance(container, range):
+            if isinstance(item, (int, float)):
+                return item in container
+            if isinstance(item, (SInt, SBV)):
+                x = item.to_int() if isinstance(item, SBV) else item
+                st = container.step
+                if len(container) == 0:
+                    return False
+                lo, hi = (container.start, container[-1]) if st > 0 else (container[-1], container.start)
+                inside = And(x >= lo, x <= hi)
+                return inside if abs(st) == 1 else And(inside, eq((x - container.start) % abs(st), 0))
+            raise Unsupported("'in' on range with a non-integer symbolic value")
         pc = getattr(container, "py_contains", None)
         if pc is not None:
             return pc(self, item)
